@@ -689,6 +689,7 @@ pub enum EncryptionContext {
     RecRecipient,
 }«
 use crate::vprelude::*;
+broadcast use crate::vprelude::lemma_empty_array_view;
 use crate::header::{prot_slot, prot_encodable};
 pub open spec fn enc_ctx_text(c: EncryptionContext) -> Seq<char> {
     match c {
